@@ -240,6 +240,10 @@ pub enum ApiOp {
     PSubscribe(String, bool),
     Unsubscribe(u16, u8),
     SubscribeLs(String),
+    /// the fire-and-forget subscribe calls (events only reach all_messages())
+    SubscribeAsync(String, bool),
+    PSubscribeAsync(String, bool),
+    SubscribeLsAsync(String),
 }
 
 #[derive(Clone, Debug, PartialEq, Serialize, Deserialize)]
@@ -251,6 +255,8 @@ enum SubRx {
     Key(tokio::sync::mpsc::UnboundedReceiver<Option<Value>>),
     Pattern(tokio::sync::mpsc::UnboundedReceiver<PStateEvent>),
     Ls(tokio::sync::mpsc::UnboundedReceiver<Vec<String>>),
+    /// subscribed with a fire-and-forget call: no receiver on the client side
+    Raw,
 }
 
 async fn api_run(case: &ApiCase) -> Result<CaseReport, Failure> {
@@ -376,6 +382,25 @@ async fn api_drive(case: &ApiCase, ws: &WireServer) -> Result<CaseReport, Failur
                 let parent = k(parent);
                 let (rx, tid) = wb.subscribe_ls(Some(parent)).await.map_err(|e| fail("c20.api.subscribe_ls", "Ok".into(), e.to_string()))?;
                 subs.push((tid, SubRx::Ls(rx), "ls"));
+            }
+            ApiOp::SubscribeAsync(key, unique) => {
+                let tid = wb.subscribe_async(k(key), *unique, true).await.map_err(|e| fail("c20.api.subscribe_async", "Ok".into(), e.to_string()))?;
+                // barrier: the server has processed (and acknowledged) the subscription before anything else happens
+                wb.get_generic("api/__barrier__".to_owned()).await.map_err(|e| fail("c20.barrier", "Ok".into(), e.to_string()))?;
+                subs.push((tid, SubRx::Raw, "value"));
+                rep.classes.push("subscribed_with_a_fire_and_forget_call");
+            }
+            ApiOp::PSubscribeAsync(p, unique) => {
+                let tid = wb.psubscribe_async(k(p), *unique, true, None).await.map_err(|e| fail("c20.api.psubscribe_async", "Ok".into(), e.to_string()))?;
+                wb.get_generic("api/__barrier__".to_owned()).await.map_err(|e| fail("c20.barrier", "Ok".into(), e.to_string()))?;
+                subs.push((tid, SubRx::Raw, "value"));
+                rep.classes.push("subscribed_with_a_fire_and_forget_call");
+            }
+            ApiOp::SubscribeLsAsync(parent) => {
+                let tid = wb.subscribe_ls_async(Some(k(parent))).await.map_err(|e| fail("c20.api.subscribe_ls_async", "Ok".into(), e.to_string()))?;
+                wb.get_generic("api/__barrier__".to_owned()).await.map_err(|e| fail("c20.barrier", "Ok".into(), e.to_string()))?;
+                subs.push((tid, SubRx::Raw, "ls"));
+                rep.classes.push("subscribed_with_a_fire_and_forget_call");
             }
             ApiOp::Unsubscribe(idx, how) => {
                 if subs.is_empty() {
@@ -688,6 +713,9 @@ fn api_case(max: usize) -> BoxedStrategy<ApiCase> {
         2 => (key(), any::<bool>()).prop_map(|(k, u)| ApiOp::Subscribe(k, u)),
         2 => (pat(), any::<bool>()).prop_map(|(p, u)| ApiOp::PSubscribe(p, u)),
         3 => key().prop_map(ApiOp::SubscribeLs),
+        2 => (key(), any::<bool>()).prop_map(|(k, u)| ApiOp::SubscribeAsync(k, u)),
+        2 => (pat(), any::<bool>()).prop_map(|(p, u)| ApiOp::PSubscribeAsync(p, u)),
+        2 => key().prop_map(ApiOp::SubscribeLsAsync),
         6 => (any::<u16>(), any::<u8>()).prop_map(|(i, h)| ApiOp::Unsubscribe(i, h)),
     ];
     proptest::collection::vec(op, 1..=max).prop_map(|ops| ApiCase { ops }).boxed()
@@ -720,7 +748,7 @@ pub fn run(cfg: &RunCfg) -> i32 {
         let (agg, v) = run_prop(cfg, "api", n, || api_case(25), |c: &ApiCase| check_api(c, &kfs));
         check.add_part(
             "api",
-            "single-task sequences of 1..=25 calls of the public typed API (set, cset with current/stale/future version, get, cget, pget, delete, pdelete quiet/loud, ls, publish, subscribe, psubscribe, subscribe_ls and the four unsubscribe calls) on a private key space against the reference model; every unsubscribe is judged on the raw server stream after a barrier (Ack and no Err for the subscription's id) and on the server's own API (subscription gone); non-trivial = >= 5 calls; distinct = case",
+            "single-task sequences of 1..=25 calls of the public typed API (set, cset with current/stale/future version, get, cget, pget, delete, pdelete quiet/loud, ls, publish, subscribe, psubscribe, subscribe_ls in their awaited and their fire-and-forget form, and the four unsubscribe calls on subscriptions of either origin) on a private key space against the reference model; every unsubscribe is judged on the raw server stream after a barrier (Ack and no Err for the subscription's id) and on the server's own API (subscription gone); non-trivial = >= 5 calls; distinct = case",
             false,
             agg,
         );
